@@ -3,6 +3,7 @@ package c14
 
 import (
 	"fmt"
+	"math"
 	"os"
 	"regexp"
 	"strings"
@@ -145,6 +146,23 @@ func runStr(c *h.Ctx, cs StrCase) {
 		return
 	}
 	interesting := strings.ContainsAny(cs.S, `"[]?`)
+	// reference grammar: every character of an accepted text must be accounted
+	// for by exactly one segment of the documented syntax
+	refSel, refOK := sel.ParseRef(cs.S)
+	if (err == nil) != refOK {
+		if err == nil {
+			c.Fail("C14/selector/grammar/accepts-underivable", "Parse(%q) succeeded, but the text is not derivable from the selector grammar: some part of it cannot belong to any segment (prints as %q)", cs.S, p.String())
+		} else {
+			c.Fail("C14/selector/grammar/rejects-derivable", "Parse(%q) failed (%v), but the text is derivable from the selector grammar as %+v", cs.S, err, refSel)
+		}
+		return
+	}
+	if err == nil {
+		if why := segmentsMatchRef(p, refSel); why != "" {
+			c.Fail("C14/selector/grammar/segments-differ", "Parse(%q): %s (reference segments %+v)", cs.S, why, refSel)
+			return
+		}
+	}
 	if err != nil {
 		c.P.Class("sel/rejected")
 		if cs.Intent != nil {
@@ -233,7 +251,53 @@ func runStr(c *h.Ctx, cs StrCase) {
 	}
 }
 
-var insertable = []string{".", "?", "[", "]", `"`, `\`, ":", "0", "1", "-", "a", "é", " ", `["`, `"]`, "[]", ".."}
+// segmentsMatchRef compares the parsed segments (through the accessors) with
+// the reference derivation.
+func segmentsMatchRef(p selector.Selector, ref sel.Sel) string {
+	if len(p) != len(ref) {
+		return fmt.Sprintf("%d segments parsed, the grammar derives %d", len(p), len(ref))
+	}
+	for i, w := range ref {
+		g := p[i]
+		switch w.Kind {
+		case "id":
+			if !g.Identity() {
+				return fmt.Sprintf("segment %d should be identity", i)
+			}
+			continue
+		case "field", "qfield":
+			if g.Identity() || g.Iterator() || len(g.Slice()) > 0 || g.Field() != w.Name {
+				return fmt.Sprintf("segment %d should be field %q, is %q", i, w.Name, g.String())
+			}
+			if w.Name != "" && fmt.Sprint(selectOn(selector.Selector{g}, val.Map(val.E(w.Name, val.Int(42))).Node())) != fmt.Sprint(selOut{0, val.Int(42).String()}) {
+				return fmt.Sprintf("segment %d does not select field %q", i, w.Name)
+			}
+		case "index":
+			if g.Identity() || g.Iterator() || len(g.Slice()) > 0 || g.Field() != "" || int64(g.Index()) != w.Idx {
+				return fmt.Sprintf("segment %d should be index %d, is %q", i, w.Idx, g.String())
+			}
+		case "iter":
+			if !g.Iterator() {
+				return fmt.Sprintf("segment %d should be the iterator", i)
+			}
+		case "slice":
+			sl := g.Slice()
+			if len(sl) != 2 {
+				return fmt.Sprintf("segment %d should be a slice", i)
+			}
+			// absent bounds are represented by the extreme values
+			if (w.From != nil && sl[0] != *w.From) || (w.From == nil && sl[0] > -(1<<53)) || (w.To != nil && sl[1] != *w.To) || (w.To == nil && sl[1] < (1<<53)) {
+				return fmt.Sprintf("segment %d has bounds %v, the text says %s", i, sl, w.Text())
+			}
+		}
+		if g.Optional() != w.Opt {
+			return fmt.Sprintf("segment %d optional=%v, the text says %v", i, g.Optional(), w.Opt)
+		}
+	}
+	return ""
+}
+
+var insertable = []string{".", "?", "[", "]", `"`, `\`, ":", "0", "1", "-", "a", "é", " ", `["`, `"]`, "[]", "..", ":1", ":", "1:", "::", `\"`, `""`, "]]", "[["}
 
 func mutate(t *rapid.T, s string) string {
 	r := []rune(s)
@@ -291,6 +355,11 @@ func TestSelectorEnumeration(t *testing.T) {
 		if depth > 0 {
 			total++
 			p, err := selector.Parse(prefix)
+			if rs, ok := sel.ParseRef(prefix); ok != (err == nil) || (ok && segmentsMatchRef(p, rs) != "") {
+				strProp.One(t, StrCase{S: prefix})
+				fail = true
+				return
+			}
 			if err == nil {
 				accepted++
 				if p.String() != normalise(prefix) {
@@ -460,7 +529,7 @@ func runPol(c *h.Ctx, pc PolCase) {
 		return
 	}
 	want := normalisePolicyNode(node)
-	if !datamodel.DeepEqual(back, want) {
+	if !val.EqualNodes(back, want) || !val.SameMapOrder(back, want) {
 		c.Fail("C14/policy/ipld-roundtrip", "FromIPLD -> ToIPLD is not the identity (up to selector normalisation)\n in:  %s\n out: %s", val.FromNode(want), val.FromNode(back))
 		return
 	}
@@ -524,7 +593,7 @@ func jsonFaithful(n ipld.Node) bool {
 	val.FromNode(n).Walk(func(v val.V) {
 		if v.K == "float" {
 			f := v.Float64()
-			if f == float64(int64(f)) || f != f || f > 1e300 || f < -1e300 {
+			if f == math.Trunc(f) || f != f || f > 1e300 || f < -1e300 {
 				ok = false
 			}
 		}
@@ -558,4 +627,5 @@ var polProp = h.Define(P, "policy", drawPol, runPol)
 func TestPolicies(t *testing.T) { polProp.Check(t) }
 
 var _ = qp.Map
+var _ = datamodel.DeepEqual
 var _ = basicnode.NewInt
